@@ -28,7 +28,7 @@ import numpy as np
 from detectors import ALL, KSWINDet, corr_compare, compare_traces, gen_ops, run_impl, run_models
 from lib import BUILD, HEADER, Check, check_props, coq_eval
 
-TMP = os.path.join(BUILD, "c15_tmp")
+TMP = os.path.join(BUILD, "c15_tmp", str(os.getpid()))
 HIGHEST = pickle.HIGHEST_PROTOCOL
 PROTOS = list(range(HIGHEST + 1))
 
@@ -798,6 +798,8 @@ def run(ck: Check):
         reps = (1 if spec.family == "concept" else 2) * (1 if not thorough else 6)
         for rep in range(reps):
             for vi, (cbkind, end) in enumerate(variants):
+                if cbkind == "perm" and rep >= 1 and not thorough:
+                    continue
                 cfg = spec.gen_cfg(rng)
                 cb = gen_callback(rng, cbkind) if cbkind else None
                 if spec.family == "concept":
